@@ -238,7 +238,8 @@ let check_impl_sys (d : dag) (s : isys) : string option =
 
 (* ------------------------------------------------------------------------------------------------
    C08 handler.  Case: (case ID (profile P) (origin ..) (muts ..) (vseed N) (text "..") (impl R))
-   correspondence : Model.parse_text_raw vs R (class, and for Ok the whole system) - as for C18
+   correspondence : Model.parse_text_raw_v / Model.parse_text_v vs R (class, and for Ok the whole FINAL system: demoted
+                    states among the inputs, renamed state symbols, output names) - as for C18
    property oracle: the reference interpreter Model.sem_text (Spec/Btor2Sem.v) run on the TEXT under
                     valuations derived from vseed, against the extracted evaluator (ebv / earr) run on
                     the IMPLEMENTATION's system under the same valuations: sorts of inputs and states,
@@ -363,12 +364,24 @@ let handle_c08 (x : Sexp.t) : string =
        | B2Err e -> Registry.result ~id ~status:"fail" ~key:("accepts-ill-sorted:" ^ sem_err_name e) ()
        | B2Ok s0 ->
            (* model vs implementation *)
-           let corr =
-             match parse_text_raw_v code_variant dbg ctext with
-             | POk (raw, ren) -> (match compare_sys d s (demote raw) ren with None -> None | Some w -> Some ("system: " ^ w))
-             | _ -> Some "class: impl ok, model not" in
            let sizes = tree_sizes d in
            let total = Array.fold_left (fun a k -> min (1 lsl 40) (a + k)) 0 sizes in
+           (* the FINAL system of parse_str (after improve_state_names and demotion) against the model's final system:
+              [demote raw] with [ren] applied at the symbol leaves (shared graphs stay shared), and - whenever a renaming
+              took place and the expanded trees are small - the eagerly computed Model.parse_text_v itself
+              (= demote (rename_sys ren raw), the system the theorems C08_final_* / C18_final_* are about), names included *)
+           let corr =
+             match parse_text_raw_v code_variant dbg ctext with
+             | POk (raw, ren) ->
+                 (match compare_sys d s (demote raw) ren with
+                  | Some w -> Some ("system: " ^ w)
+                  | None ->
+                      if ren <> [] && total < 200000 then
+                        (match parse_text_v code_variant dbg ctext with
+                         | POk fin -> (match compare_sys d s fin [] with None -> None | Some w -> Some ("final system (eager): " ^ w))
+                         | _ -> Some "class: impl ok, eager model not")
+                      else None)
+             | _ -> Some "class: impl ok, model not" in
            if total > 3000000 then
              (match corr with
               | Some w -> Registry.result ~id ~status:"diff" ~key:"system" ~detail:w ()
